@@ -703,6 +703,9 @@ def conclude(ctx, obs, level_note, assumptions, stubs, rule, pre_info, extra_cov
             print('SUGGEST known: property=%s key=%s %s fails, e.g. %s' % (
                 ctx.prop, ob.kfwhole or '?', ob.group,
                 ' '.join('%s=%s' % kv for kv in sorted(ob.result.inputs.items())[:8])))
+    extra_v = getattr(ctx, 'callgraph_violation', None)
+    if extra_v:
+        print('VIOLATION property=%s replay=%s' % (ctx.prop, extra_v))
     for ob in violations:
         print('VIOLATION property=%s replay=%s' % (ctx.prop, ob.result.replay_path))
         ctx.log('  obligation %s failed: %s inputs=%s' % (
@@ -723,7 +726,7 @@ def conclude(ctx, obs, level_note, assumptions, stubs, rule, pre_info, extra_cov
     if os.environ.get('VERIF_TIMES'):
         for g, (n, tot, mx) in sorted(gt.items(), key=lambda kv: -kv[1][1])[:40]:
             ctx.log('time %-40s n=%-4d total=%7.1fs max=%6.1fs' % (g, n, tot, mx))
-    if violations:
+    if violations or extra_v:
         return 1
     if problems:
         return 2
